@@ -420,8 +420,13 @@ pub fn run(part: &mut Part) {
         "C08" => {
             let mut alpha = a_write();
             alpha.push(Op::app(QA, Pos::Auto, Sz::Emb));
-            let mut seeds = vec![seed_empty(), seed_ab(), seed_two_files(), seed_recreated(), seed_gc_ready()];
-            seeds.extend(cursor_seeds(&[0, 1], &[0, 8]));
+            alpha.push(Op::app(QA, Pos::Auto, Sz::EmbTail));
+            // a batch whose second record (header + payload) is exactly as long as a full frame
+            // payload: losing one full middle frame leaves a buffer that still parses
+            alpha.push(Op::Append { q: QA, pos: Pos::Auto, sizes: vec![Sz::N((3 * BLOCK) as u32), Sz::N((BLOCK - 19) as u32)] });
+            alpha.push(Op::Append { q: QB, pos: Pos::Auto, sizes: vec![Sz::N((2 * BLOCK + 5) as u32), Sz::N((BLOCK - 19) as u32), Sz::S3] });
+            let mut seeds = vec![seed_empty(), seed_ab(), seed_two_files(), seed_recreated(), seed_recreated_from_zero(), seed_gc_ready()];
+            seeds.extend(cursor_seeds(&[0, 1], &[0, 7, 8]));
             let profiles = vec![prof("seeds x (A_write + frame-shaped payload)", seeds, alpha, if TINY { if q { 1 } else { 2 } } else { 1 })];
             let descr: Vec<_> = profiles.iter().map(|p| p.describe()).collect();
             let stats = explore(&profiles, part.seed, |env, leaf| crate::damage::c08_leaf(env, leaf));
@@ -432,7 +437,8 @@ pub fn run(part: &mut Part) {
             part.require_outcomes(&["open-ok"]);
         }
         "C09" => {
-            let seeds = vec![seed_empty(), seed_ab(), seed_two_files(), seed_recreated(), seed_gc_ready(), seed_empty_old(), seed_future(), seed_interleaved()];
+            let mut seeds = vec![seed_empty(), seed_ab(), seed_two_files(), seed_recreated(), seed_recreated_from_zero(), seed_gc_ready(), seed_empty_old(), seed_future(), seed_interleaved()];
+            seeds.extend(cursor_seeds(&[0, 3], &[0, 6, 7, 8]));
             let mut alpha = a_write();
             alpha.push(Op::Trunc { q: QA, at: Tr::Beyond });
             let profiles = vec![prof("seeds x A_write", seeds, alpha, if TINY { if q { 2 } else { 3 } } else if q { 1 } else { 2 })];
@@ -453,8 +459,18 @@ pub fn run(part: &mut Part) {
             let kk = if TINY { k + if q { 1 } else { 0 } } else { 1 };
             let stats = explore(&profiles, part.seed, |env, leaf| crate::damage::c10_structural_leaf(env, leaf, kk));
             part.stats.merge(stats);
+            let mut alpha2 = a_write();
+            alpha2.push(Op::app(QA, Pos::Auto, Sz::Emb));
+            let mut seeds2 = vec![seed_empty(), seed_ab(), seed_two_files(), seed_recreated_from_zero()];
+            seeds2.extend(cursor_seeds(&[0, 3], &[0, 7, 8]));
+            let profiles2 = vec![prof("seeds x A_write (in-place faults)", seeds2, alpha2, 1)];
+            let descr2: Vec<_> = profiles2.iter().map(|p| p.describe()).collect();
+            let stats = explore(&profiles2, part.seed, |env, leaf| crate::damage::c10_inplace_leaf(env, leaf));
+            part.stats.merge(stats);
+            part.extra.insert("inplace_fault_profiles".into(), json!(descr2));
             crate::damage::c10_crafted(part);
             part.bounds = json!({"image_profiles": descr, "structural_damage": format!("all sequences of 1..={} ops from the menu: zero / fill (FF, 01, pattern) a block, swap two blocks, copy a block over another, truncate a file to 0/1/B-1/B/B+1/F-1 bytes, remove a file, duplicate a file under the next number / under u64::MAX, swap two files, add stray files (foreign names, 23-char name, 20 digits overflowing u64, empty valid-named file)", kk),
+                "in_place": "the whole in-place fault menu of C08 (every byte x 14 values, zero ranges, every length-field value) on the images of inplace_fault_profiles, with this property's oracle",
                 "crafted": "CRC-valid Full frames whose entry fields range over type 0..5 x position {0,1,5,2^62,2^64-1} x queue {empty, a, non-UTF-8} x queue_len {exact, +1, 65535} x record {position 0/5/2^64-1} x {len 0, exact, +1, 2^32-1, short header}; all sequences of <= 2 entries (thorough: <= 3 over a reduced set)",
                 "oracles": "catch_unwind (engine and crate built with overflow-checks), deterministic tick budget 100000 (H3+H5 ticks), peak allocation <= 8 x directory bytes + 1 MiB, then every read accessor of a returned log"});
             part.stats.sample(|| json!({"image":"seed two-files + App(a,L)","damage_ops":["TruncFile(0,1)","DupFileMax(1)"]}));
